@@ -201,9 +201,79 @@ func c16Nested(c *sim.Ctx) *sim.Violation {
 	return nil
 }
 
+// c16Large: a valid frame of 1..3 MiB for EVERY type that can be that large (all
+// but PINGREQ/PINGRESP): many 64 KiB user properties, filters or reason codes.
+// Dispatch and values must not depend on the size of the frame.
+func c16Large(c *sim.Ctx) *sim.Violation {
+	t := c.T
+	big := bytes.Repeat([]byte{'v'}, 65535)
+	for typ := byte(1); typ <= 15; typ++ {
+		if typ == ref.PingReq || typ == ref.PingResp {
+			continue
+		}
+		a := &ref.AP{Type: typ, Flags: ref.ReservedFlags(typ), PacketID: 1 + uint16(t.Int(65535)), Form: 2}
+		n := 17 + t.Int(30)
+		ups := func() {
+			for i := 0; i < n; i++ {
+				a.Props = append(a.Props, ref.Prop{ID: 0x26, K: []byte{'k', byte('a' + i%26)}, V: big[:65535-t.Int(3)]})
+			}
+		}
+		switch typ {
+		case ref.Connect:
+			a.ProtoName, a.ProtoVer, a.ClientID = []byte("MQTT"), 5, []byte("c")
+			ups()
+		case ref.Publish:
+			a.Topic, a.PacketID, a.Flags = []byte("t"), 0, byte(t.Int(2))|byte(t.Int(2))<<3
+			if t.Bool(1, 2) {
+				ups()
+			} else {
+				a.Payload = make([]byte, 1<<20+t.Int(1<<20))
+			}
+		case ref.Subscribe:
+			for i := 0; i < n; i++ {
+				a.Filters = append(a.Filters, ref.Filter{Name: big[:65535-i], Opts: byte(i % 3)})
+			}
+		case ref.Unsubscribe:
+			for i := 0; i < n; i++ {
+				a.Filters = append(a.Filters, ref.Filter{Name: big[:65535-i]})
+			}
+		case ref.SubAck, ref.UnsubAck:
+			a.Codes = make([]byte, 1<<20+t.Int(1000))
+			for i := range a.Codes {
+				a.Codes[i] = []byte{0, 1, 0x80, 0x11}[i%4]
+			}
+		default:
+			ups()
+		}
+		frame, _ := ref.Encode(a)
+		first := frame[0]
+		got := ReadOne(link.NewReader(c, frame, link.Mode{Chunk: t.Bool(1, 2)}))
+		sig := func(w string) string { return fmt.Sprintf("C16/0x%02X/frame-of-1MiB-or-more/%s", first, w) }
+		if got.Kind != "packet" {
+			return sim.V(sig("not-decoded"), "%s frame of %d bytes: %s", a.TypeName(), len(frame), got)
+		}
+		if got.Type != typ {
+			return sim.V(sig("wrong-type"), "%s frame of %d bytes decoded as %s", a.TypeName(), len(frame), typeName(got.Type))
+		}
+		if name, wv, gv := ref.FirstDiff(a.Canon(), got.Canon); name != "" {
+			return sim.V(sig(name), "%s frame of %d bytes: %s want %q got %q", a.TypeName(), len(frame), name, wv, gv)
+		}
+		if b2, werr, pi := encodeReal(got.P); pi != nil || werr != nil || len(b2) == 0 || b2[0] != first {
+			return sim.V(sig("re-encode"), "%s frame of %d bytes: writing it again: err=%v panic=%v first byte %x", a.TypeName(), len(frame), werr, pi, b2[:min2(len(b2), 1)])
+		}
+		c.Count("probe.frame-of-1MiB-or-more(" + a.TypeName() + ")")
+	}
+	return nil
+}
+
 func runC16(c *sim.Ctx) *sim.Violation {
 	if v := c16Nested(c); v != nil {
 		return v
+	}
+	if c.Run%100 == 8 {
+		if v := c16Large(c); v != nil {
+			return v
+		}
 	}
 	if c.Run%100 == 7 {
 		if v := c16Huge(c); v != nil {
